@@ -75,6 +75,10 @@ fn bodies() -> Vec<(&'static str, Vec<&'static str>, bool)> {
         ("DATA 5,6", none.clone(), false),
         ("INPUT A", none.clone(), true),
         ("INPUT \"p\";A,B$", none.clone(), true),
+        // every reply is first given with a surplus field (REDO FROM START), then correctly
+        ("INPUT A,C", none.clone(), true),
+        // POS with its dummy argument, TAB and SPC in expressions
+        ("A=POS(0)+POS(1):A$=TAB(3)+SPC(2)", none.clone(), true),
         ("A$=INKEY$", none.clone(), true),
         ("CLS", none.clone(), true),
     ]
@@ -149,7 +153,10 @@ fn run_long(lines: &[String], replies: usize, reply: &str) -> Result<(String, bo
         }
         s.take();
         for _ in 0..replies {
-            s.replies.push_back(reply.to_string());
+            // "bad|good": a refused reply followed by the good one, every time
+            for part in reply.split('|') {
+                s.replies.push_back(part.to_string());
+            }
         }
         let st = s.enter("RUN");
         let ev = s.take();
@@ -207,7 +214,7 @@ impl Sweep for Residue {
         }
         let replies = if body.contains("INPUT") { self.n + 10 } else { 0 };
         ctx.nontrivial(hash64(&(body, format!("{:?}", shape))));
-        match run_long(&lines, replies, if body.contains("B$") { "1,x" } else { "1" }) {
+        match run_long(&lines, replies, if body.contains("B$") { "1,x" } else if body.contains("A,C") { "1,2,3|1,2" } else { "1" }) {
             Err(p) => ctx.violation(&format!("residue/{}", crate::engine::panic_class(&p)), p),
             Ok((out, err)) => {
                 if err || !out.ends_with(&done) {
